@@ -168,6 +168,16 @@ CHECKS["C11"] = dict(
          "are outside what a solver decides (process independence follows from result == closed function, with C14).",
     design="3 (C11)", technique=CH + "; z3 QF_BV witnesses via the bit-vector proxy engine")
 
+CHECKS["C12"] = dict(
+    text="Bounded symbolic execution of HashClient's routing, batching and merging with a stub hasher driven by a symbolic "
+         "assignment vector (every distribution of the routing keys over 2-3 servers, not only murmur3's) and recording "
+         "per-server stores: every single-key operation reaches exactly the assigned server, multi-key operations deliver "
+         "each key exactly once to its server, get_many == per-key gets, set_many's failed list == union of per-server "
+         "failures, and what set_many wrote is found by gets/touch/incr/delete. All shards exhaust.",
+    note="Bound: 5-key corpus (str/bytes twins, (server_key, key) pairs), all 32 subsets, 2-3 (thorough 1-4) servers. The solver "
+         "enumerates the finite index space completely. Trusted: z3, the stub hasher/store.",
+    design="3 (C12)", technique=CH)
+
 NOT_YET = {}
 
 NA_REASON_PENDING = "check not built yet in this session (planned; see DESIGN.md section 3)"
